@@ -7,9 +7,6 @@ use std::str::Chars;
 use self::LiteralKind::*;
 use self::TokenKind::*;
 
-// assumed-dep (std): documented behaviour of char::is_ascii / is_ascii_digit
-pub assume_specification [<char>::is_ascii] (c: &char) -> (b: bool) ensures b == ((*c as u32) < 128);
-pub assume_specification [<char>::is_ascii_digit] (c: &char) -> (b: bool) ensures b == ('0' <= *c && *c <= '9');
 
 // assumed-dep (crates unicode-xid, unicode-properties): the Unicode tables are uninterpreted,
 // except for the ASCII facts below (UAX #31: ASCII letters are XID_Start; letters, digits and
